@@ -117,8 +117,8 @@ def check_sign(ctx, F, cp, rows, jobs, b):
         if not cands: raise common.Infra("no reference row for %s" % ln)
         if any(not bad for _, bad in cands): continue
         if elib not in eset and (cp.name, alg, d, elib) in rows and not sign_row_matches(cp, lib, rows[(cp.name, alg, d, elib)], rv):
-            F.add("%s:%s:hash-to-integer:%s" % (fn, alg, cls),
-                  "build %s\ncase %s\nthe signatures are those of e = %d (documented library conversion); the standard's e is %s" % (b.name, ln, elib, eset),
+            F.add("ecdsa:hash-to-integer:%s" % cls,
+                  "%s (%s)\nbuild %s\ncase %s\nthe signatures are those of e = %d (documented library conversion); the standard's e is %s" % (fn, alg, b.name, ln, elib, eset),
                   {"case": ln, "build": b.name})
             continue
         e, bad = min(cands, key=lambda c: len(c[1]))
@@ -149,20 +149,22 @@ def forms_for(cp, q):
 def verify_diff(F, fn, alg, b, ln, lib_acc, cand, cls, elib_used):
     extra = lib_acc - cand; missing = cand - lib_acc
     if elib_used:
-        F.add("%s:%s:hash-to-integer:%s" % (fn, alg, cls), "build %s\ncase %s\nthe accept set is that of the documented library conversion of the digest, not of the standard's e" % (b.name, ln), {"case": ln, "build": b.name})
+        F.add("ecdsa:hash-to-integer:%s" % cls, "%s (%s)\nbuild %s\ncase %s\nthe accept set is that of the documented library conversion of the digest, not of the standard's e" % (fn, alg, b.name, ln), {"case": ln, "build": b.name})
     for (r, s) in sorted(extra)[:50]:
-        sym = "accepts-r=0" if r == 0 else "accepts-s=0" if s == 0 else "accepts-invalid-signature"
-        F.add("%s:%s:%s" % (fn, alg, sym), "build %s\ncase %s\n(r, s) = (%d, %d) is accepted; the reference rejects it" % (b.name, ln, r, s), {"case": ln, "build": b.name, "r": r, "s": s})
+        # one missing range check each: r = 0 (both algorithms, both verifiers), s = 0 (GOST: no inverse of s is taken)
+        key = "ecdsa_verify:accepts-r=0" if r == 0 else "ecdsa_verify:gost:accepts-s=0" if (s == 0 and alg == "gost") else "%s:%s:accepts-invalid-signature" % (fn, alg)
+        F.add(key, "%s (%s)\nbuild %s\ncase %s\n(r, s) = (%d, %d) is accepted; the reference rejects it" % (fn, alg, b.name, ln, r, s), {"case": ln, "build": b.name, "r": r, "s": s})
     for (r, s) in sorted(missing)[:50]:
         F.add("%s:%s:rejects-valid-signature" % (fn, alg), "build %s\ncase %s\n(r, s) = (%d, %d) is rejected; the reference accepts it" % (b.name, ln, r, s), {"case": ln, "build": b.name, "r": r, "s": s})
 
-def judge_accept(F, fn, alg, b, ln, lib_acc, accs, h, key_valid, validated):
+def judge_accept(F, fn, alg, b, ln, lib_acc, accs, h, key_valid, validated, neutral=False):
     """accs: e -> reference accept set (set of pairs) for this (curve, alg, key)"""
     tok, eset, elib, cls, _ = h
     if not key_valid:
         if not validated: return           # the caller vouches for the key when validation is off: unspecified
         if lib_acc:
-            F.add("%s:%s:accepts-invalid-public-key" % (fn, alg), "build %s\ncase %s\naccepted pairs: %s" % (b.name, ln, sorted(lib_acc)[:6]), {"case": ln, "build": b.name})
+            key = "ecdsa_verify:accepts-neutral-element-as-public-key" if neutral else "%s:%s:accepts-invalid-public-key" % (fn, alg)
+            F.add(key, "%s (%s)\nbuild %s\ncase %s\naccepted pairs: %s" % (fn, alg, b.name, ln, sorted(lib_acc)[:6]), {"case": ln, "build": b.name})
         return
     cands = [(e, accs[e]) for e in eset if e in accs]
     if not cands: raise common.Infra("no reference accept set for %s" % ln)
@@ -206,7 +208,7 @@ def check_vlist(ctx, F, cp, vl, jobs, b):
         validated = b.pubchk and api != "bn" and not priv
         short = ln[:160] + (" ...(%d pairs)" % len(pairs))
         if not q["d"]:
-            judge_accept(F, fn, alg, b, short, lib_acc, {}, h, False, validated); continue
+            judge_accept(F, fn, alg, b, short, lib_acc, {}, h, False, validated, neutral=not q["pt"]); continue
         # per candidate e: the library's verdicts on that e's own pair list
         tok, eset, elib, cls, _ = h
         cand = []
@@ -247,7 +249,7 @@ def check_vgrid(ctx, F, cp, vg, jobs, b):
         q = cp.qs[qi - 1]
         accs = {e: {tuple(x) for x in vg[(cp.name, alg, qi, e)][1]} for e in set(h[1]) | {h[2]} if (cp.name, alg, qi, e) in vg}
         validated = b.pubchk and api != "bn" and not priv
-        judge_accept(F, fn, alg, b, ln, lib_acc, accs, h, bool(q["d"]), validated)
+        judge_accept(F, fn, alg, b, ln, lib_acc, accs, h, bool(q["d"]), validated, neutral=not q["pt"])
     return n
 
 # ------------------------------------------------------------------ tier (B)
@@ -395,12 +397,23 @@ def run(ctx):
     builds = R.choose_builds(ctx, 2 if ctx.quick else 6, want)
     bt = threading.Thread(target=lambda: R.build_all(builds, d)); bt.start()
     only = os.environ.get("VERIF_C03_ONLY", "")
-    bt.join()
-    ctx.log("built %d drivers: %s" % (len(builds), [b.name for b in builds]))
-    if only != "c": tier_b(ctx, F, builds)
     if only != "b":
         from rig import ecdsa_modec
-        ecdsa_modec.tier_c(ctx, F, builds, d)
+        ecdsa_modec.start_self_check()      # background: EcdsaBig = Ecdsa on the synthetic curves, published examples
+    bt.join()
+    ctx.log("built %d drivers: %s" % (len(builds), [b.name for b in builds]))
+    cres = {}
+    def c_rounds():
+        try: cres["st"] = ecdsa_modec.rounds(ctx, F, builds)
+        except BaseException as e: cres["err"] = e
+    ct = None
+    if only != "b":
+        ct = threading.Thread(target=c_rounds); ct.start()         # library part of tier C, while TLC enumerates tier B
+    if only != "c": tier_b(ctx, F, builds)
+    if ct is not None:
+        ct.join()
+        if "err" in cres: raise cres["err"]
+        ecdsa_modec.finish(ctx, F, cres["st"])
     F.flush()
     ctx.cov["builds"] = [b.name for b in builds]
     ctx.cov["rule"] = ("tier B: the corpus is the set of reachable states of EcdsaGen under the slice written to the .cfg files; "
